@@ -50,7 +50,7 @@ m = {
          "kind_free_text": "Python 3 (stdlib) static rule engine: normalised CFG, dominators, guards, backward value-flow slices, path tables; one rule module per theme"},
     ],
     "checks": checks,
-    "notes": "Static analysis only. Known findings: known-findings.json. Seeded variants: mutants/ (hand-written, thorough tier) and seeded/ (from independent sub-agents). See DESIGN.md.",
+    "notes": "Static analysis only: a rustc_private driver dumps MIR and resolved callees of /repo's current tree; Python rules decide structural necessary conditions of each property on every path / call site and report file:line, rule and construct. quick = all rules of the property on the current tree. thorough = the same plus, on scratch copies outside /repo and /verif, every still-compiling breaking variant kept for the property (mutants/<ID>: hand-written and reverse-of-fix; seeded/<ID>-*: confirmed changes from independent sub-agents) must be reported (a miss prints SENSITIVITY-MISS), and every behaviour-preserving refactoring in mutants/controls must leave the property's rules silent (SENSITIVITY-FALSE-ALARM otherwise); neither kind of line is a VIOLATION of /repo. Known findings: known-findings.json. See DESIGN.md sections 1 and 7.",
     "not_applicable": na,
 }
 json.dump(m, open(os.path.join(V, "MANIFEST.json"), "w"), indent=1)
